@@ -1,0 +1,51 @@
+//go:build verif
+
+package seat_manager
+
+// Constructor and locked snapshot used by the verification harness in /verif.
+// Compiled only with -tags verif.
+
+// VerifNewSeatManager builds a seat manager in an explicit state.
+func VerifNewSeatManager(maxSeat int, rule string, seats map[int]*SeatPlayer, dealer, sb, bb int, isInit bool) SeatManager {
+	data := make(map[int]*SeatPlayer)
+	for i := 0; i < maxSeat; i++ {
+		data[i] = nil
+	}
+	for k, v := range seats {
+		if v == nil {
+			data[k] = nil
+			continue
+		}
+		cp := *v
+		data[k] = &cp
+	}
+	return &seatManager{
+		MaxSeat:      maxSeat,
+		SeatData:     data,
+		DealerSeatID: dealer,
+		SBSeatID:     sb,
+		BBSeatID:     bb,
+		Rule:         rule,
+		IsInit:       isInit,
+	}
+}
+
+// VerifSnapshot copies the seat data under the manager's lock.
+func VerifSnapshot(m SeatManager) (seats map[int]*SeatPlayer, dealer, sb, bb int, isInit bool) {
+	sm, ok := m.(*seatManager)
+	if !ok {
+		return nil, UnsetSeatID, UnsetSeatID, UnsetSeatID, false
+	}
+	sm.mu.RLock()
+	defer sm.mu.RUnlock()
+	seats = make(map[int]*SeatPlayer)
+	for k, v := range sm.SeatData {
+		if v == nil {
+			seats[k] = nil
+			continue
+		}
+		cp := *v
+		seats[k] = &cp
+	}
+	return seats, sm.DealerSeatID, sm.SBSeatID, sm.BBSeatID, sm.IsInit
+}
